@@ -81,7 +81,11 @@ func (hs *clientHandshakeStateTLS13) decompressCert(m utlsCompressedCertificateM
 		decompressed = rc
 
 	case CertCompressionZstd:
-		rc, err := zstd.NewReader(compressed)
+		// The decoder allocates the window a frame header announces before it has read any data
+		// (by default up to 512 MiB, twice over): a ten-byte message from the server must not cost
+		// that much. 32 MiB is the largest window common encoders produce without being asked to
+		// (RFC 8878 recommends encoders stay at or below 8 MiB).
+		rc, err := zstd.NewReader(compressed, zstd.WithDecoderMaxWindow(32<<20), zstd.WithDecoderLowmem(true))
 		if err != nil {
 			c.sendAlert(alertBadCertificate)
 			return nil, fmt.Errorf("failed to open zstd reader: %w", err)
